@@ -24,7 +24,7 @@ CLAIMS = {
          "The zip/map/collect::<Result<Vec,_>> plumbing of parse_deadline_modifications is now under contract on the whole function (one modification per pair in request order; Ok only if every pair is well-formed, the only failure is INVALID_ARGUMENT), using vstd's zip/map/collect specifications and one trusted axiom for std's `impl FromIterator<Result<A,E>> for Result<Vec<A>,E>` (all items unwrapped in order, or one of the errors); normalisation N12 binds the closure's tuple-pattern parameter by a `let`. The unary ModifyAckDeadline handler (async fn, whole body) is under contract: OK means the subscription was handed one modification per ack id, in order, each the per-pair result for the request's seconds value at one instant `now` of the call; a malformed id / negative value / malformed name is INVALID_ARGUMENT (returned before the handle is reached: the only call on the handle follows every `?` of the parsing, which the verifier checks through the postconditions at each exit), an absent name NOT_FOUND. Trusted: the handle (A-GLUE); the in-stream control handler handle_streaming_pull_request is under contract as a whole async function as well (after fix fa8d41c): inconsistent messages, malformed ack ids in either list and negative values are INVALID_ARGUMENT; OK means the acks and one modification per pair were handed to the subscription in order. That a rejected message applied nothing (F4) is not expressible as a contract and stays with the stand-in scenario `stream_reject_atomic`."),
  "C08": ("proof of the sequential parts (scoped)",
          "Proved: the Publish handler (async fn, whole body, B5) returns exactly one message id per submitted message, hands the topic every message of the request in request order and answers with the text of the ids the topic returned, in that order; the id-assignment region of publish_messages returns exactly one id per submitted message in request order, id i = (topic id << 32) | (counter + 1 + i), counter advances by n; ids are strictly monotone in the counter (bit-vector lemma); pull returns a prefix of the backlog in order and post appends at the end; history lemma lemma_fifo (unbounded histories of actor turns): the sequence of first deliveries on a subscription is a prefix of the sequence of accepted posts, each post's batch contiguous and in request order - requeued messages never overtake a never-delivered one.",
-         "NOT covered: 'awaits all posts before the next publish' and equal order on every subscription (async fan-out, A-GLUE); fewer than 2^32-1 messages per topic (A-ARITH, u32 counter)."),
+         "The Topic handle methods (publish / attach / remove / list / delete; async, B4) are under contract: OK means exactly that request with the caller's arguments was put into the topic actor's mailbox. NOT covered: 'awaits all posts before the next publish' and equal order on every subscription (async fan-out, A-GLUE); fewer than 2^32-1 messages per topic (A-ARITH, u32 counter)."),
  "C09": ("proof of the mapping code (scoped)",
          "Proved: request -> TopicMessage -> ReceivedMessage keeps data bytes and attribute map, message_id is Display of the assigned id, one publish time; MessageId::new is injective on (topic id, counter) (bit-vector proof); topic internal ids are fresh and never reused (delete does not touch next_id); the HTTP push payload region carries base64(data), both id fields, the subscription name and (after fix 79f6033) the attributes; the unary Pull helper pull_messages maps the leases it was handed position by position (each ReceivedMessage carries the data, attributes, ids and publish time of the lease at its position).",
          "Trusted: prost / serde_json / base64 encoders, Display of u64 (A-LIB, A-STR: uninterpreted injective functions); Bytes and SystemTime stand-ins; u32 counter wrap (A-ARITH)."),
